@@ -96,3 +96,14 @@ def feature_histogram(batch):
         for t in prog.tags:
             h[t] = h.get(t, 0) + 1
     return dict(sorted(h.items(), key=lambda kv: -kv[1]))
+
+
+def replay_files(path):
+    """files of the program stored in a replay directory ('original/' if present, else the directory itself)"""
+    base = os.path.join(path, "original") if os.path.isdir(os.path.join(path, "original")) else path
+    out = {}
+    for fn in sorted(os.listdir(base)):
+        if fn.endswith(".nano"):
+            with open(os.path.join(base, fn)) as f:
+                out[fn] = f.read()
+    return out
